@@ -68,7 +68,7 @@ Section Plan.
     | _ :: _ =>
         let td := mkTd (g_seq p) (g_pay p) in
         if is_client && (g_src p =? f_cip f) && (g_sport p =? f_cport f) then
-          if negb (f_cparsed f) then
+          if negb (f_cparsed f) && negb (is_retrans (f_cdata f) td) then
             let cd := f_cdata f ++ [td] in
             let full := full_data cd in
             let f1 := mkFlow (f_cip f) (f_sip f) (f_cport f) (f_sport f) cd (f_sdata f) false (f_sparsed f) in
@@ -80,7 +80,7 @@ Section Plan.
             end
           else Some (None, f, ONone)
         else if (g_src p =? f_sip f) && (g_sport p =? f_sport f) then
-          if negb (f_sparsed f) then
+          if negb (f_sparsed f) && negb (is_retrans (f_sdata f) td) then
             let sd := f_sdata f ++ [td] in
             let full := full_data (if is_client then f_cdata f else sd) in
             let f1 := mkFlow (f_cip f) (f_sip f) (f_cport f) (f_sport f) (f_cdata f) sd (f_cparsed f) false in
@@ -95,7 +95,7 @@ Section Plan.
     end.
   Definition finish_ops (pkt_key : fkey) (f : tcpflow) (p : segment) : list op :=
     if f_cparsed f && f_sparsed f then [ORem pkt_key]
-    else if g_fin p || g_rst p then [ORem pkt_key] else [].
+    else if g_rst p || (g_fin p && negb (f_cparsed f && negb (f_sparsed f))) then [ORem pkt_key] else [].
   Definition plan_on_flow (p : segment) (flow_key k : fkey) (f : tcpflow) (is_client : bool) : list op * out :=
     match decide p f is_client with
     | None => ([], ONone)
@@ -111,7 +111,7 @@ Section Plan.
     end.
 
   Lemma finish_plan st pk f p : finish st pk f p = exec (finish_ops pk f p) st.
-  Proof. unfold finish, finish_ops. destruct (f_cparsed f && f_sparsed f); [reflexivity|]. now destruct (g_fin p || g_rst p). Qed.
+  Proof. unfold finish, finish_ops. destruct (f_cparsed f && f_sparsed f); [reflexivity|]. now destruct (g_rst p || _). Qed.
 
   Lemma on_flow_plan st p fk k f ic :
     on_flow parse_req parse_resp st p fk k f ic = (exec (fst (plan_on_flow p fk k f ic)) st, snd (plan_on_flow p fk k f ic)).
@@ -119,12 +119,12 @@ Section Plan.
     unfold on_flow, plan_on_flow, decide. destruct (g_pay p) as [|b0 pl]; [reflexivity|].
     set (pay := b0 :: pl).
     destruct (ic && (g_src p =? f_cip f) && (g_sport p =? f_cport f)).
-    - destruct (negb (f_cparsed f)).
+    - destruct (negb (f_cparsed f) && _).
       + destruct (if has_complete (full_data (f_cdata f ++ [mkTd (g_seq p) pay])) then parse_req (full_data (f_cdata f ++ [mkTd (g_seq p) pay])) else None);
           cbn [fst snd]; rewrite finish_plan; unfold exec, set_flow; rewrite fold_left_app; reflexivity.
       + cbn [fst snd app]. now rewrite finish_plan.
     - destruct ((g_src p =? f_sip f) && (g_sport p =? f_sport f)).
-      + destruct (negb (f_sparsed f)).
+      + destruct (negb (f_sparsed f) && _).
         * destruct (if has_complete (full_data (if ic then f_cdata f else f_sdata f ++ [mkTd (g_seq p) pay]))
                     then parse_resp (full_data (if ic then f_cdata f else f_sdata f ++ [mkTd (g_seq p) pay])) else None);
             cbn [fst snd]; rewrite finish_plan; unfold exec, set_flow; rewrite fold_left_app; reflexivity.
@@ -153,7 +153,7 @@ Section Plan.
     apply Forall_app. split.
     - destruct w; [apply Forall_cons; [cbn; auto | apply Forall_nil] | apply Forall_nil].
     - unfold finish_ops. destruct (f_cparsed ff && f_sparsed ff); [apply Forall_cons; [cbn; auto | apply Forall_nil]|].
-      destruct (g_fin p || g_rst p); [apply Forall_cons; [cbn; auto | apply Forall_nil] | apply Forall_nil].
+      destruct (g_rst p || _); [apply Forall_cons; [cbn; auto | apply Forall_nil] | apply Forall_nil].
   Qed.
   Lemma plan_shape fo ro p :
     (Forall (fun o => (op_key o = seg_key p \/ op_key o = flip_key (seg_key p)) /\ is_ins o = false) (fst (plan fo ro p)))
